@@ -7,11 +7,13 @@ package harness
 
 import (
 	"context"
+	"encoding/json"
 	"errors"
 	"fmt"
 	"sort"
 	"strings"
 	"sync"
+	"sync/atomic"
 	"testing/synctest"
 	"time"
 
@@ -173,6 +175,8 @@ func (l *cbLog) callbacks(cfg *SrvCfg, transportOf func() lime.Transport) (
 		enc := ""
 		if t := transportOf(); t != nil {
 			enc = string(t.Encryption())
+		} else if cfg.Transport == "inproc" {
+			enc = "none" // the server-side end of an in-process pair under a Server is not visible to the harness; it has no encryption
 		}
 		l.add(CBEntry{Call: "auth", Identity: IdentityText(id), Scheme: scheme, Cred: cred, Enc: enc, Result: out})
 		switch out {
@@ -279,6 +283,84 @@ func symToEnv(s *CSym, sid string) M {
 	return m
 }
 
+var srvScriptSeq int64
+
+// inprocScriptPeer is the scripted peer on an in-process transport: generic envelopes are turned into library values with the
+// library's typed decoders (what cannot be decoded cannot be sent on this transport at all).
+type inprocScriptPeer struct {
+	InprocPeer
+	step   int
+	closed bool
+}
+
+func (p *inprocScriptPeer) SendGeneric(m M) error {
+	if m == nil {
+		return errors.New("inproc: not expressible")
+	}
+	b, err := json.Marshal(m)
+	if err != nil {
+		return fmt.Errorf("inproc: %w", err)
+	}
+	var v interface{}
+	switch {
+	case m["state"] != nil:
+		v = &lime.Session{}
+	case m["method"] != nil && m["status"] != nil:
+		v = &lime.ResponseCommand{}
+	case m["method"] != nil:
+		v = &lime.RequestCommand{}
+	case m["event"] != nil:
+		v = &lime.Notification{}
+	default:
+		v = &lime.Message{}
+	}
+	if err := json.Unmarshal(b, v); err != nil {
+		return fmt.Errorf("inproc: not expressible: %w", err)
+	}
+	return p.SendEnvelope(v)
+}
+
+func (p *inprocScriptPeer) Drain() {
+	n := len(p.Got)
+	p.InprocPeer.Drain()
+	for i := n; i < len(p.Got); i++ {
+		p.Got[i].Step = p.step
+	}
+}
+
+func (p *inprocScriptPeer) closeSelf() {
+	if !p.closed {
+		p.closed = true
+		_ = p.T.Close()
+	}
+}
+
+// InprocExpressible reports whether a script symbol can be sent on the in-process transport.
+func InprocExpressible(s *CSym) bool {
+	if s.Kind == "garbage" || s.Kind == "malformed" || !decodableSym(s) {
+		return false
+	}
+	m := symToEnv(s, "x")
+	if m == nil {
+		return false
+	}
+	p := &inprocScriptPeer{}
+	b, _ := json.Marshal(m)
+	var v interface{} = &lime.Message{}
+	switch {
+	case m["state"] != nil:
+		v = &lime.Session{}
+	case m["method"] != nil && m["status"] != nil:
+		v = &lime.ResponseCommand{}
+	case m["method"] != nil:
+		v = &lime.RequestCommand{}
+	case m["event"] != nil:
+		v = &lime.Notification{}
+	}
+	_ = p
+	return json.Unmarshal(b, v) == nil
+}
+
 // RunServerScript executes one case inside the current synctest bubble.
 func RunServerScript(c *SrvCase) *SrvObs {
 	obs := &SrvObs{}
@@ -295,6 +377,8 @@ func RunServerScript(c *SrvCase) *SrvObs {
 	defer cancel()
 
 	var peer *RawPeer
+	var ip *inprocScriptPeer // in-process transport: the peer sends library envelope values, there is no byte stream
+	inproc := c.Cfg.Transport == "inproc"
 	var serverEnd *FConn
 	var sc *lime.ServerChannel
 	var scMu sync.Mutex
@@ -332,6 +416,22 @@ func RunServerScript(c *SrvCase) *SrvObs {
 		mux.NotificationHandlerFunc(nil, func(context.Context, *lime.Notification) error { count(); return nil })
 		mux.RequestCommandHandlerFunc(nil, func(context.Context, *lime.RequestCommand, lime.Sender) error { count(); return nil })
 		mux.ResponseCommandHandlerFunc(nil, func(context.Context, *lime.ResponseCommand, lime.Sender) error { count(); return nil })
+		if inproc {
+			addr := lime.InProcessAddr(fmt.Sprintf("srvscript-%d", atomic.AddInt64(&srvScriptSeq, 1)))
+			srv = lime.NewServer(cfg, mux, lime.NewBoundListener(lime.NewInProcessTransportListener(addr), addr))
+			go func() { srvDone <- srv.ListenAndServe() }()
+			synctest.Wait()
+			ct, err := lime.DialInProcess(addr, 64)
+			if err != nil {
+				obs.PeerErr = "dial: " + err.Error()
+				_ = srv.Close()
+				<-srvDone
+				return obs
+			}
+			ip = &inprocScriptPeer{InprocPeer: InprocPeer{T: ct}}
+			close(estDone)
+			break
+		}
 		srv = lime.NewServer(cfg, mux, lime.NewBoundListener(fl, FAddr))
 		go func() { srvDone <- srv.ListenAndServe() }()
 		synctest.Wait()
@@ -347,10 +447,16 @@ func RunServerScript(c *SrvCase) *SrvObs {
 		peer = NewRawPeer(conn.Client)
 		close(estDone) // not observable in this mode
 	default:
-		cl, sv := Pipe(PipeOpts{Capture: true})
-		serverEnd = sv
-		peer = NewRawPeer(cl)
-		st = lime.VerifNewTCPTransport(sv, tcpCfg, true)
+		if inproc {
+			ct, svt := lime.VerifNewInProcessTransportPair(lime.InProcessAddr("srvscript-direct"), 64)
+			ip = &inprocScriptPeer{InprocPeer: InprocPeer{T: ct}}
+			st = svt
+		} else {
+			cl, sv := Pipe(PipeOpts{Capture: true})
+			serverEnd = sv
+			peer = NewRawPeer(cl)
+			st = lime.VerifNewTCPTransport(sv, tcpCfg, true)
+		}
 		sc = lime.NewServerChannel(st, 1, srvNode, fixedSid)
 		go func() {
 			defer close(estDone)
@@ -374,9 +480,23 @@ func RunServerScript(c *SrvCase) *SrvObs {
 			obs.States = append(obs.States, string(ch.State()))
 		}
 	}
+	gotEnvs := func() []GotEnv {
+		if inproc {
+			return ip.Got
+		}
+		return peer.Got
+	}
+	drain := func() {
+		if inproc {
+			ip.Drain()
+		} else {
+			peer.Drain()
+		}
+	}
 	learnSid := func() {
-		for i := len(peer.Got) - 1; i >= 0; i-- {
-			if id, ok := peer.Got[i].Env["id"].(string); ok && id != "" {
+		got := gotEnvs()
+		for i := len(got) - 1; i >= 0; i-- {
+			if id, ok := got[i].Env["id"].(string); ok && id != "" {
 				obs.Sid = id
 				return
 			}
@@ -387,9 +507,18 @@ func RunServerScript(c *SrvCase) *SrvObs {
 		if !(c.End == "close-now" && i == len(c.Script)-1 && i > 0) {
 			synctest.Wait()
 		}
-		peer.Drain()
+		drain()
 		sample()
 		learnSid()
+		if inproc {
+			ip.step = i + 1
+			env := symToEnv(sym, obs.Sid)
+			obs.Sent = append(obs.Sent, env)
+			if err := ip.SendGeneric(env); err != nil && obs.PeerErr == "" && strings.HasPrefix(err.Error(), "inproc:") {
+				obs.PeerErr = err.Error()
+			}
+			continue
+		}
 		peer.Step = i + 1
 		if sym.Kind == "garbage" {
 			obs.Sent = append(obs.Sent, M{"garbage": true})
@@ -416,35 +545,56 @@ func RunServerScript(c *SrvCase) *SrvObs {
 	}
 	if c.End == "close-now" {
 		// the peer vanishes right after its last envelope, before the server can answer it
-		_ = peer.Raw.Close()
+		if inproc {
+			ip.closeSelf()
+		} else {
+			_ = peer.Raw.Close()
+		}
 	}
 	synctest.Wait()
-	peer.Drain()
+	drain()
 	sample()
 	learnSid()
 	switch c.End {
 	case "close-now":
 	case "cut":
-		peer.Raw.Cut() // abrupt: the server's read fails with a reset, not an orderly end of stream
+		if inproc {
+			ip.closeSelf() // no reset on this transport: the same as vanishing
+		} else {
+			peer.Raw.Cut() // abrupt: the server's read fails with a reset, not an orderly end of stream
+		}
 	case "silence":
 		time.Sleep(handshakeTimeout + time.Second)
 	case "wait":
 		// the peer stays connected and silent
 	default:
-		peer.Raw.CloseWrite() // the peer vanishes (half-close first so that buffered server output can still be read)
+		if inproc {
+			ip.closeSelf() // what the server had queued before is still delivered
+		} else {
+			peer.Raw.CloseWrite() // the peer vanishes (half-close first so that buffered server output can still be read)
+		}
 	}
 	synctest.Wait()
-	peer.Drain()
+	drain()
 	// release bound: TCP paths may need one poll interval (5 s) to notice
 	time.Sleep(6 * time.Second)
 	synctest.Wait()
-	peer.Drain()
+	drain()
 	sample()
-	obs.ServerClosed = serverEnd.Closed()
+	if inproc {
+		// both ends of an in-process pair close together: "closed by the server" is observable only while the peer has not closed
+		obs.ServerClosed = !ip.T.Connected()
+	} else {
+		obs.ServerClosed = serverEnd.Closed()
+	}
 	obs.Serving, obs.ServingStack = servingGoroutines()
-	obs.Got = peer.Got
-	obs.PeerSawEOF = peer.SawEOF
-	obs.Cleartext = string(peer.Raw.peer.Captured())
+	obs.Got = gotEnvs()
+	if inproc {
+		obs.PeerSawEOF = ip.SawEOF || !ip.T.Connected()
+	} else {
+		obs.PeerSawEOF = peer.SawEOF
+		obs.Cleartext = string(peer.Raw.peer.Captured())
+	}
 	scMu.Lock()
 	ch := sc
 	scMu.Unlock()
@@ -455,7 +605,11 @@ func RunServerScript(c *SrvCase) *SrvObs {
 	}
 	// cleanup
 	cancel()
-	peer.Close()
+	if inproc {
+		ip.closeSelf()
+	} else {
+		peer.Close()
+	}
 	if srv != nil {
 		_ = srv.Close()
 		<-srvDone
@@ -465,7 +619,7 @@ func RunServerScript(c *SrvCase) *SrvObs {
 	if ch != nil && c.Cfg.Mode != "server" {
 		_ = ch.Close()
 	}
-	if !serverEnd.Closed() {
+	if serverEnd != nil && !serverEnd.Closed() {
 		_ = serverEnd.Close()
 	}
 	log.mu.Lock()
